@@ -18,7 +18,7 @@ MANIFEST = {
     "design_ref": "DESIGN.md §7 C01",
     "technique": "Coq proof (handler inversion + exact integer inequalities per primitive + induction over histories) + model/implementation correspondence at handler level (real handlers in the sim runtime)",
 }
-THEOREMS = ["C01_step", "C01_allowance_is", "C01_accrual_allowance", "C01_wellformedness_preserved", "C01_HOk2_implies_HOk",
+THEOREMS = ["C01_step", "C01_allowance_is", "C01_accrual_allowance", "C01_wellformedness_preserved", "C01_HOk2_implies_HOk", "C01_hypotheses_checkable",
             "C01_history", "C01_history_given_wellformed_states"]
 RULE = ("instruction sequences (deposit incl. up-to-limit, withdraw / withdraw-all, borrow with origination fee, repay / repay-all, "
         "close_balance, liquidate, bankruptcy, accrue, collect_fees, clock advances, price changes) by 1-4 users over 1-3 banks with "
@@ -40,6 +40,9 @@ def suites(rng, tier):
     m = {"quick": 700, "thorough": 15000, "search": 10000}[tier]
     hl = [H.gen_case(rng, max_ops=26) for _ in range(m)]
     return [{"suite": "hops", "name": "hops-solvency", "lines": hl, "distribution": {"cases": m, "max_ops": 26}},
+            {"suite": "hokcheck", "name": "hypotheses-hold-on-generated-worlds", "lines": hl, "model_only": True,
+             "count": (lambda out: out.strip() == "1"),
+             "distribution": {"cases": m, "note": "the extracted boolean checker hok2b (proved sound: hok2b w = true -> HOk2 w) evaluated on the initial world of every generated case: how many tested histories start in a world that satisfies the hypotheses of the C01 theorems"}},
             {"suite": "hopsref", "name": "hops-solvency-reference", "lines": hl, "impl_only": True,
              "distribution": {"cases": m, "note": "same cases with the real accrue_interest applied in isolation: gives the accrued share values the allowance is computed from"}}]
 
